@@ -232,16 +232,48 @@ def limit_scenario(limit_kind, head):
   return scenario
 
 
-def adjust_scenario():
+def adjust_scenario(form):
+  """form: 'scalar' | 'list3' | 'list4' default; short per-class lists are padded with the default of the
+  SAME role: [kernel, bias, activation] (and recurrent for sequence layers)."""
   def scenario(ip):
     s = Scen()
     cls = ip.find(AQ)
-    limit = {"Dense": [4], "Conv2D": [4, 4], "LSTM": [4, 4], "Activation": [4]}
+    k, bi, rc, ac = [SNum(z3.Int(n), "int") for n in ("dk", "db", "dr", "da")]
+    for v in (k, bi, rc, ac):
+      s.vars[str(v.e)] = v.e
+      ip.assume(z3.And(v.e >= 1, v.e <= 16))
+    limit = {"Dense": [4], "Conv2D": [4, 5], "DepthwiseConv2D": [1, 2, 3], "Activation": [4]}
+    if form == "scalar":
+      default = k
+      exp = {"Dense": [4, k, k], "Conv2D": [4, 5, k], "DepthwiseConv2D": [1, 2, 3]}
+    elif form == "list3":
+      default = [k, bi, ac]
+      exp = {"Dense": [4, bi, ac], "Conv2D": [4, 5, ac], "DepthwiseConv2D": [1, 2, 3]}
+    else:
+      default = [k, bi, rc, ac]
+      limit["LSTM"] = [4, 5]
+      limit["GRU"] = [4, 5, 6, 7]
+      exp = {"Dense": [4, bi, ac], "Conv2D": [4, 5, ac], "DepthwiseConv2D": [1, 2, 3], "LSTM": [4, 5, rc, ac],
+             "GRU": [4, 5, 6, 7]}
     hm = Obj(cls, {"limit": limit})
-    r = run_call(ip, ip.getattr(hm, "_adjust_limit"), [[8, 8, 8, 8]])
+    r = run_call(ip, ip.getattr(hm, "_adjust_limit"), [default])
     s.claim("no_raise", r[0] == "return")
-    s.claim("lengths", len(limit["Dense"]) == 3 and len(limit["Conv2D"]) == 3 and len(limit["LSTM"]) == 4 and
-            limit["Activation"] == [4] and limit["Dense"] == [4, 8, 8] and limit["Conv2D"] == [4, 4, 8])
+    if r[0] != "return":
+      s.info["raised"] = str(r[1])
+      return s
+    goals = []
+    ok = limit["Activation"] == [4]
+    for name, e in exp.items():
+      got = limit[name]
+      if len(got) != len(e):
+        ok = False
+        continue
+      for g, x in zip(got, e):
+        if isinstance(g, SNum) or isinstance(x, SNum):
+          goals.append(Q.num_value(g) == Q.num_value(x))
+        elif g != x:
+          ok = False
+    s.claim("padded_with_same_role_default", z3.And(*goals) if (ok and goals) else ok)
     return s
   return scenario
 
@@ -258,5 +290,7 @@ def cases(tier):
     for head in ("kernel_quantizer", "bias_quantizer", "activation"):
       out.append(Case(PROP, AQ + "._get_quantizer", "%s_%s" % (lk, head), limit_scenario(lk, head), bounds=bounds,
                       replay_kind=None, assumptions=ASSUME))
-  out.append(Case(PROP, AQ + "._adjust_limit", "defaults", adjust_scenario(), replay_kind=None, assumptions=ASSUME))
+  for form in ("scalar", "list3", "list4"):
+    out.append(Case(PROP, AQ + "._adjust_limit", form, adjust_scenario(form), bounds=bounds, replay_kind=None,
+                    assumptions=ASSUME))
   return out
